@@ -75,6 +75,21 @@ sockets of the harness hold the first 1-3 local ports they would take (default
 lang_port() + 1 and the local_port argument), in the tcp, histrt and port
 shards; per connection one responder per path filtered on the connection's real
 port (fires once per message) and one on the held first candidate (silent).
+
+Round 10: responders that SHARE their function (vf/c18_shared.py, shards
+'shared*').  The history monitor gives every responder a closure of its own (it
+has to, to tell responders apart in its log), so the dispatcher tables never hold
+one function twice and every bookkeeping step that looks a function up BY VALUE
+(membership, index, remove, equality of bound methods) is invisible to it.  The
+new histories build 2-9 responders over a pool of 1-3 handlers (function, lambda,
+bound method - a fresh equal object per use -, callable instance, partial; exact
+and matching, colliding paths, dispatcher instances, decorator, with and without
+filters; hot reload `new = OscFunc(h, path); old.free()` in all its orders) and
+COUNT: per message and handler the number of invocations must equal the number of
+enabled responders with that function that accept the message; no operation on a
+sharer may raise; flags / listings follow the model; the order of the handler
+labels is judged when all responders of a message sit on one path of one
+dispatcher.
 """
 
 from vf.common import iter_cases, case_rng, h64, split
@@ -116,6 +131,13 @@ RULE = ("hist: seeded histories (5-55 ops) over <=10 responders on 4-9 paths tha
         "hist / histudp histories and TCP frames as above; TCP connections (tcp, histrt, "
         "port) are made with 0-3 of their first candidate local ports held by listening "
         "sockets of the harness (40 % with an explicit local_port). "
+        "shared: histories of 2-9 responders over 1-3 shared handlers (function / lambda / "
+        "bound method / callable instance / partial), 2-3 colliding paths, 35 % filtered, "
+        "ops create / hot reload (4 orders) / free / disable / enable / one_shot / function "
+        "replacement / permanent / CmdPeriod, 75 % aimed at responders that share their "
+        "function; invocations counted per handler; non-trivial = a message that must "
+        "invoke one function more than once, a state-changing op and an enabled responder "
+        "that must stay silent. "
         "distinct = hash of history / pattern group / datagram bytes")
 ASSUMPTIONS = [
     "vf/model_dispatch.py:osc_match is the meaning of 'OSC 1.0 pattern' (per-part "
@@ -198,6 +220,13 @@ ASSUMPTIONS = [
     "hard_run: the default server's address is pointed at a socket of the harness so "
     "that the node-tree re-initialisation talks to nobody else on the host; the "
     "harness waits for the '/sync' of that routine before it goes on",
+    "shared functions: two responders given the same (or an equal: bound methods of one "
+    "object) function are two responders - each is invoked once per accepted message, so "
+    "the function is invoked once per such responder; their order among themselves is "
+    "unobservable, their order relative to responders with another function is judged "
+    "only when all responders the message must invoke are on one path of one dispatcher "
+    "and creation order and last-enabling order agree for all of them; templates hold "
+    "values only and messages are never shorter than a template (no open verdicts)",
     "listings: _all_enabled / _all_disabled / _all_func_proxies are private but "
     "documented by their doc strings; restricted to the history's own responders",
 ]
@@ -247,7 +276,17 @@ MIN_COUNTERS = {
               'tcp_messages_behind_held_ports': 250,
               'tcp_recv_port_filter_checks': 300,
               'rt_tcp_connections_behind_held_ports': 1,
-              'recv_port_filter_verdicts/fires': 2000},
+              'recv_port_filter_verdicts/fires': 2000,
+              # round 10: responders sharing one function (vf/c18_shared.py)
+              'shared_histories': 500, 'shared_messages': 5000,
+              'shared_messages_invoking_one_function_more_than_once': 1500,
+              'shared_sharer_silent_while_other_fires': 1500,
+              'shared_ops_on_a_sharer': 5000, 'shared_ops_on_a_sharer/free': 1500,
+              'shared_ops_on_a_sharer/disable': 400, 'shared_ops_on_a_sharer/enable': 120,
+              'shared_ops_on_a_sharer/one_shot': 400, 'shared_ops_on_a_sharer/set_func': 250,
+              'shared_ops_on_a_sharer/cmd_period': 70, 'shared_one_shots_fired': 250,
+              'shared_reloads/new-then-free': 250, 'shared_reloads/free-then-new': 120,
+              'shared_order_sequences_checked': 250, 'shared_epilogues': 400},
     'thorough': {'hist_messages': 100000, 'invocations_checked': 60000,
                  'order_pairs_checked': 5000, 'one_shots_fired': 3000,
                  'in_callback_ops_total': 3000,
@@ -294,7 +333,16 @@ MIN_COUNTERS = {
                  'tcp_messages_behind_held_ports': 15000,
                  'tcp_recv_port_filter_checks': 20000,
                  'rt_tcp_connections_behind_held_ports': 2,
-                 'recv_port_filter_verdicts/fires': 50000},
+                 'recv_port_filter_verdicts/fires': 50000,
+                 'shared_histories': 12000, 'shared_messages': 120000,
+                 'shared_messages_invoking_one_function_more_than_once': 35000,
+                 'shared_sharer_silent_while_other_fires': 35000,
+                 'shared_ops_on_a_sharer': 120000, 'shared_ops_on_a_sharer/free': 35000,
+                 'shared_ops_on_a_sharer/disable': 9000, 'shared_ops_on_a_sharer/enable': 2500,
+                 'shared_ops_on_a_sharer/one_shot': 9000, 'shared_ops_on_a_sharer/set_func': 5000,
+                 'shared_ops_on_a_sharer/cmd_period': 1500, 'shared_one_shots_fired': 5000,
+                 'shared_reloads/new-then-free': 5000, 'shared_reloads/free-then-new': 2500,
+                 'shared_order_sequences_checked': 5000, 'shared_epilogues': 9000},
 }
 
 
@@ -319,6 +367,8 @@ def plan(tier, seed):
     add('tcp', 'rt', 1200 if q else 30000, 1 if q else 2)
     add('midi', 'nrt', 3000 if q else 100000, 1 if q else 2)
     add('reg', 'nrt', 6000 if q else 200000, 1 if q else 2)
+    # round 10: responders that share one function object (vf/c18_shared.py)
+    add('shared', 'rt', 1600 if q else 45000, 1 if q else 2)
     # the library started BEHIND ports other programs hold (vf/c18_port.py starts
     # it itself: worker mode 'none'), one process per number of held ports
     for k, held in enumerate((1, 3) if q else (1, 3, 6)):
@@ -351,6 +401,9 @@ def run_shard(spec, acc):
     elif kind == 'reg':
         from vf import c18_reg
         c18_reg.run(spec, acc)
+    elif kind == 'shared':
+        from vf import c18_shared
+        c18_shared.run(spec, acc)
     elif kind == 'port':
         from vf import c18_port
         c18_port.run(spec, acc)
